@@ -546,7 +546,7 @@ def r09_2(q, R, spec):
         if (m.get("k") == "mcall" and is_repo_fn(callee_key(m)) and len(m["args"]) == 1
                 and (m["recv"].get("ty") or "").startswith(DM + "Combination<")):
             r = H.local_of(m["recv"])
-            c = H.peel(m["args"][0])
+            c = _fn_as_closure(q, H.peel(m["args"][0]))
             if r and ctx["kind"] == "comb" and same_local(r[0], ctx["x"], root) and c.get("k") == "closure" and len(c["params"]) == 1 and c["params"][0].get("k") == "bind":
                 root, fp = H.place_root(c["body"])
                 if root and root[0] == c["params"][0]["id"] and _plain(fp) == path and len(_plain(fp)) == len(fp):
@@ -660,6 +660,15 @@ def r09_2(q, R, spec):
         R.inst(rid, "javadoc-accessor:" + lv, got == T.sym("self.javadoc"), sp=acc["sp"], expect="self.javadoc", got=T.show(got))
     R.floor(rid, len(spec["levels"]["expected"]) + len(levels))
     return roles
+
+
+def _fn_as_closure(q, c):
+    """a function of the crate passed by name (`ab.map(names_of)`) read as the closure `|x| names_of(x)`: its parameters and body"""
+    if c.get("k") == "path" and c["res"].get("r") == "def" and c["res"].get("dk") in ("Fn", "AssocFn"):
+        fb = q.by_key.get(c["res"].get("inst_key")) or q.by_key.get(c["res"].get("key"))
+        if fb is not None and isinstance(fb.get("body"), dict):
+            return {"k": "closure", "params": fb["params"], "body": fb["body"], "sp": fb.get("sp")}
+    return c
 
 
 def _find_merge(q):
